@@ -96,7 +96,11 @@ func Unpack(any *anypb.Any, fileResolver protodesc.Resolver, typeResolver protor
 			return nil, fmt.Errorf("protoFiles does not have descriptor %s: %w", any.TypeUrl, err)
 		}
 
-		typ = dynamicpb.NewMessageType(msgDesc.(protoreflect.MessageDescriptor))
+		md, ok := msgDesc.(protoreflect.MessageDescriptor)
+		if !ok {
+			return nil, fmt.Errorf("type URL %s does not name a message (found %T)", any.TypeUrl, msgDesc)
+		}
+		typ = dynamicpb.NewMessageType(md)
 
 	} else if err != nil {
 		return nil, err
